@@ -197,6 +197,19 @@ impl Engine for ChunkerEngine {
             },
         };
         let expect = ref_chunker(&data, target);
+        // history on this thread (one run in four): another stream was being chunked and its chunker was dropped with
+        // an open chunk — a cancelled or failed file; it must leave nothing behind for the next chunker
+        if mix(&[p.frag_seed, 0xabad]) % 4 == 0 {
+            let mut c = deduplication::Chunker::new(target);
+            let mut r = Rng::new(p.frag_seed ^ 0xabad);
+            let n_junk = 1 + r.usize_below(max + min);
+            let junk = r.bytes(n_junk);
+            let cut = r.usize_below(junk.len()) + 1;
+            let _ = c.next_block(&junk[..cut], false);
+            let _ = c.next_block(&junk[cut..], false);
+            drop(c);
+            rep.count("fault:chunker_abandoned_mid_stream_before_this_run", 1);
+        }
         let got = run_real(target, &data, &frags, p.api_mode);
 
         // C04.a concatenation
@@ -329,7 +342,7 @@ impl Engine for ChunkerEngine {
     }
 
     fn rule(&self, _focus: &str) -> String {
-        "Each run: a seeded stream (random / constant / periodic / small-alphabet / early-match / atom recombination) at a seeded power-of-two target 2^7..2^17 is delivered to the real Chunker in seeded fragments (0- and 1-byte calls, sizes hugging min-65/min/max, huge) through one of three API modes and compared with the independent reference chunker. Non-trivial: stream produced >= 3 chunks, was delivered in >= 2 calls and target >= 1024 (skip-ahead branch live). Distinct: hash of (target, content kind, API mode, chunk length list, first 64 fragment sizes).".into()
+        "Each run: a seeded stream (random / constant / periodic / small-alphabet / early-match / atom recombination) at a seeded power-of-two target 2^7..2^17 is delivered to the real Chunker in seeded fragments (0- and 1-byte calls, sizes hugging min-65/min/max, huge) through one of three API modes and compared with the independent reference chunker; before one run in four another chunker is fed a partial stream on the same thread and dropped with its chunk open. Non-trivial: stream produced >= 3 chunks, was delivered in >= 2 calls and target >= 1024 (skip-ahead branch live). Distinct: hash of (target, content kind, API mode, chunk length list, first 64 fragment sizes).".into()
     }
     fn real_vs_stub(&self) -> Value {
         json!({"real": ["deduplication::Chunker (next, next_block, finish)", "merklehash::compute_data_hash", "gearhash"], "simulated": ["delivery of the byte stream (fragment sizes, API mode)"], "reference": ["ref_chunker", "ref_chunk_hash"]})
